@@ -99,3 +99,170 @@ CHECKS = {
                         "after a failure the model is re-synchronised on the region the operation targets, after validation"],
     },
 }
+
+XFER_COMPONENTS = dict(COMPONENTS)
+XFER_COMPONENTS["simulated"] = COMPONENTS["simulated"] + [
+    "reader seam: 13 input kinds over exactly-sized blocks; std::istream over a chunking streambuf; custom reader and "
+    "Arduino Stream with byte/call accounting, EOF at any offset, one short readBytes",
+    "the peer: independent JSON writer (seeded spellings) and MessagePack encoder (seeded legal widths)"]
+SINK_COMPONENTS = dict(COMPONENTS)
+SINK_COMPONENTS["simulated"] = COMPONENTS["simulated"] + [
+    "writer seam: char buffers of every capacity (exactly-sized heap block, canaries, char[N]), std::string, std::ostream over a "
+    "recording streambuf, custom writer and Arduino Print with short-write faults, Arduino String with a capacity limit"]
+
+XFER_RULE = ("one plan = one input (bytes produced by the independent codecs from a seeded value, then faulted) delivered "
+             "through the reader kinds the plan names; distinct = distinct plan texts; every plan is non-trivial "
+             "(it delivers at least one input)")
+
+CHECKS.update({
+    "C02": {
+        "level": "fault_enumeration",
+        "classes": ["C02"],
+        "rule": ("one plan = one document serialized as compact or pretty JSON into every destination kind, into a buffer of "
+                 "EVERY capacity 0..len+2 and into a custom writer / Print that stops accepting at EVERY offset (exhaustive per "
+                 "document, documents sampled); distinct = distinct plan texts"),
+        "budget_s": {"quick": 70, "thorough": 1200},
+        "batches": [
+            {"family": "sink", "mode": "json", "cfgs": {"quick": ["A", "B", "H"], "thorough": ALL_CFGS},
+             "runs": {"quick": 18000, "thorough": 240000}},
+        ],
+        "probes": ["fault.capacity_positions", "fault.short_write_positions", "sink.array_forms"],
+        "components": SINK_COMPONENTS,
+        "assumptions": ["std::ostream failure states are not injected (Writer<std::ostream> cannot observe them)",
+                        "Arduino String beyond its capacity: only 'what is stored is a prefix' is asserted",
+                        "conformance of the text is judged by sim/refjson.hpp, which tolerates raw control characters"],
+    },
+    "C08": {
+        "level": "fault_enumeration",
+        "classes": ["C08"],
+        "rule": ("one plan = one document serialized as MessagePack into every destination kind, into a buffer of EVERY capacity "
+                 "0..len+2 and into short-writing sinks at EVERY offset; sizes and magnitudes concentrated on header-width "
+                 "boundaries; decoded by the independent decoder"),
+        "budget_s": {"quick": 70, "thorough": 1200},
+        "batches": [
+            {"family": "sink", "mode": "mp", "cfgs": {"quick": ["A", "D", "H"], "thorough": ALL_CFGS},
+             "runs": {"quick": 18000, "thorough": 240000}},
+        ],
+        "probes": ["fault.capacity_positions", "fault.short_write_positions"],
+        "components": SINK_COMPONENTS,
+        "assumptions": ["conformance is judged by sim/refmsgpack.hpp"],
+    },
+    "C03": {
+        "level": "exploration",
+        "classes": ["C03"],
+        "rule": XFER_RULE,
+        "budget_s": {"quick": 80, "thorough": 1500},
+        "batches": [
+            {"family": "xfer", "mode": "any", "cfgs": {"quick": ["A", "B", "C", "D"], "thorough": ALL_CFGS},
+             "runs": {"quick": 36000, "thorough": 600000}},
+            {"family": "xfer", "mode": "valid", "cfgs": {"quick": ["A", "B"], "thorough": ALL_CFGS},
+             "runs": {"quick": 15000, "thorough": 240000}},
+            {"family": "xfer", "mode": "corrupt", "cfgs": {"quick": ["A", "E"], "thorough": ALL_CFGS},
+             "runs": {"quick": 1500, "thorough": 24000}},
+        ],
+        "probes": ["fault.eof_injected", "fault.byte_flipped", "fault.short_read_fired", "kind.variant", "kind.flash", "kind.astream"],
+        "components": XFER_COMPONENTS,
+        "assumptions": ["zero-terminated kinds see the bytes up to the first NUL and are compared with pointer+size given that prefix",
+                        "MessagePack is delivered through bounded kinds only"],
+    },
+    "C09": {
+        "level": "fault_enumeration",
+        "classes": ["C09"],
+        "rule": ("one plan = one well-formed MessagePack object from the independent encoder with seeded non-minimal widths; "
+                 "EVERY proper prefix of it is delivered (exhaustive per object, objects sampled), or single-byte corruptions "
+                 "(all 255 masks at one offset, 12 masks at three more)"),
+        "budget_s": {"quick": 80, "thorough": 1500},
+        "batches": [
+            {"family": "xfer", "mode": "mpprefix", "cfgs": {"quick": ["A", "B", "H"], "thorough": ALL_CFGS},
+             "runs": {"quick": 9000, "thorough": 160000}},
+            {"family": "xfer", "mode": "mpvalid", "cfgs": {"quick": ["A", "H"], "thorough": ALL_CFGS},
+             "runs": {"quick": 15000, "thorough": 240000}},
+            {"family": "xfer", "mode": "mpcorrupt", "cfgs": {"quick": ["A", "D"], "thorough": ALL_CFGS},
+             "runs": {"quick": 1800, "thorough": 32000}},
+            {"family": "xfer", "mode": "hostile", "cfgs": {"quick": ["A", "B"], "thorough": ALL_CFGS},
+             "runs": {"quick": 9000, "thorough": 80000}},
+        ],
+        "probes": ["fault.prefix_positions", "fault.byte_flipped", "probe.corrupt_still_wellformed"],
+        "components": XFER_COMPONENTS,
+        "assumptions": ["the value clause is a pure function of the bytes: sampled, not the technique's target"],
+    },
+    "C10": {
+        "level": "fault_enumeration",
+        "classes": ["C10"],
+        "rule": ("one plan = one JSON text from the independent writer; EVERY proper prefix of it is delivered (exhaustive per "
+                 "text), or one structural token is replaced by a wrong one, or a documented dialect extension is spliced in; "
+                 "expected classes are known by construction, not from a second recogniser"),
+        "budget_s": {"quick": 80, "thorough": 1500},
+        "batches": [
+            {"family": "xfer", "mode": "jsonprefix", "cfgs": {"quick": ["A", "B", "C"], "thorough": ALL_CFGS},
+             "runs": {"quick": 4800, "thorough": 80000}},
+            {"family": "xfer", "mode": "jsonvalid", "cfgs": {"quick": ["A", "B"], "thorough": ALL_CFGS},
+             "runs": {"quick": 15000, "thorough": 240000}},
+            {"family": "xfer", "mode": "token", "cfgs": {"quick": ["A", "B"], "thorough": ALL_CFGS},
+             "runs": {"quick": 18000, "thorough": 240000}},
+            {"family": "xfer", "mode": "dialect", "cfgs": {"quick": ["A", "B", "E"], "thorough": ALL_CFGS},
+             "runs": {"quick": 18000, "thorough": 240000}},
+        ],
+        "probes": ["fault.prefix_positions", "code.InvalidInput", "code.IncompleteInput", "code.EmptyInput"],
+        "components": XFER_COMPONENTS,
+        "assumptions": ["no executable description of the whole accepted language is attempted (DESIGN §5 C10)"],
+    },
+    "C11": {
+        "level": "exploration",
+        "classes": ["C11"],
+        "rule": ("one plan = one (input, filter) pair; the input is run with and without the filter through the same reader kind "
+                 "on instrumented allocators; inputs are valid, truncated or corrupted; non-trivial: always"),
+        "budget_s": {"quick": 80, "thorough": 1500},
+        "batches": [
+            {"family": "xfer", "mode": "filter", "cfgs": {"quick": ["A", "B", "D"], "thorough": ALL_CFGS},
+             "runs": {"quick": 72000, "thorough": 1200000}},
+        ],
+        "probes": ["probe.projection_checked", "probe.filter_dropped_something", "probe.memory_compared", "probe.filter_true_identity"],
+        "components": XFER_COMPONENTS,
+        "assumptions": ["memory is compared as peak and resident bytes, where both runs consume the same bytes (DESIGN §5 C11)",
+                        "a null entry next to a \"*\" entry is not generated (indistinguishable from no entry)"],
+    },
+    "C15": {
+        "level": "exploration",
+        "classes": ["C15"],
+        "rule": ("one plan = one input of known depth (well-formed at depth L or L+1, or thousands of unclosed openers) with limit L, "
+                 "with and without a discarding filter, through a stream kind; the stack low-water mark is read at the reader seam"),
+        "budget_s": {"quick": 60, "thorough": 900},
+        "batches": [
+            {"family": "xfer", "mode": "deep", "cfgs": {"quick": ["A", "B"], "thorough": ALL_CFGS},
+             "runs": {"quick": 18000, "thorough": 240000}},
+        ],
+        "probes": ["code.TooDeep", "stack.used.max"],
+        "components": XFER_COMPONENTS,
+        "assumptions": ["the per-level stack bound is calibrated per build on inputs of depth 2 and 12 (factor 2 margin)"],
+    },
+    "C16": {
+        "level": "exploration",
+        "classes": ["C16"],
+        "rule": ("one plan = 2-6 documents written back to back (JSON with seeded separators, NDJSON included; MessagePack) into one "
+                 "simulated stream with seeded chunking, read by successive calls; run twice with different bytes after the last document"),
+        "budget_s": {"quick": 60, "thorough": 900},
+        "batches": [
+            {"family": "xfer", "mode": "stream", "cfgs": {"quick": ["A", "B", "C"], "thorough": ALL_CFGS},
+             "runs": {"quick": 48000, "thorough": 800000}},
+        ],
+        "probes": ["stream.calls", "probe.stream_empty_after_last"],
+        "components": XFER_COMPONENTS,
+        "assumptions": ["after a JSON number the generator always writes whitespace, so the look-ahead byte never belongs to the next document"],
+    },
+})
+
+CHECKS["C05"]["batches"].append(
+    {"family": "xfer", "mode": "faultenum", "cfgs": {"quick": ["A", "B"], "thorough": ALL_CFGS},
+     "runs": {"quick": 9000, "thorough": 160000}})
+CHECKS["C05"]["components"] = XFER_COMPONENTS
+CHECKS["C06"]["batches"] += [
+    {"family": "xfer", "mode": "hostile", "cfgs": {"quick": ["A", "B", "E"], "thorough": ALL_CFGS},
+     "runs": {"quick": 9000, "thorough": 120000}},
+    {"family": "xfer", "mode": "any", "cfgs": {"quick": ["A", "E"], "thorough": ALL_CFGS},
+     "runs": {"quick": 12000, "thorough": 160000}},
+]
+CHECKS["C06"]["components"] = XFER_COMPONENTS
+CHECKS["C19"]["batches"].append(
+    {"family": "xfer", "mode": "limits", "cfgs": {"quick": ["B", "C", "D", "F"], "thorough": ["B", "C", "D", "F", "G"]},
+     "runs": {"quick": 360, "thorough": 2400}})
